@@ -2,7 +2,10 @@
 //! builders, response verification, per-uid history index, CPU hogs, socket
 //! helpers.  Oracles live in c16.rs / c17.rs.
 
-use dropshot::{endpoint, ApiDescription, Body, HttpError, RequestContext};
+use dropshot::{
+    endpoint, ApiDescription, Body, HttpError, RequestContext, StreamingBody,
+};
+use futures::StreamExt;
 use http::Response;
 use serde_json::{json, Value};
 use std::collections::{BTreeMap, BTreeSet, HashMap};
@@ -152,6 +155,47 @@ async fn h_panicking(
     handler_impl(rqctx, "panicking").await
 }
 
+/// Exotic-but-legal class: the handler holds the request body unread while it
+/// waits for its gate, then drains it.  (hyper cannot see a disconnect behind
+/// unread request bytes.)
+#[endpoint { method = POST, path = "/stream" }]
+async fn h_stream(
+    rqctx: RequestContext<C>,
+    body: StreamingBody,
+) -> Result<Response<Body>, HttpError> {
+    let ctx = rqctx.context().clone();
+    let uid = hdr_u64(&rqctx, "x-vmon-uid").unwrap_or(0);
+    let size = hdr_u64(&rqctx, "x-vmon-size").unwrap_or(64) as usize;
+    ctx.log.push("H_ENTER", uid, ctx.instance as i64, "stream");
+    let mut g = Guard { log: ctx.log.clone(), uid, done: false };
+    ctx.gates.wait(uid).await;
+    let mut got: usize = 0;
+    let mut err = "";
+    {
+        let s = body.into_stream();
+        tokio::pin!(s);
+        while let Some(c) = s.next().await {
+            match c {
+                Ok(b) => got += b.len(),
+                Err(_) => {
+                    err = "body-error";
+                    break;
+                }
+            }
+        }
+    }
+    let out = payload(uid, size);
+    ctx.log.push("H_DONE", uid, got as i64, err);
+    g.done = true;
+    Ok(Response::builder()
+        .status(200)
+        .header("x-vmon-uid", uid.to_string())
+        .header("x-vmon-instance", ctx.instance.to_string())
+        .header("x-vmon-got", got.to_string())
+        .body(Body::from(out))
+        .unwrap())
+}
+
 #[endpoint { method = GET, path = "/whoami" }]
 async fn h_whoami(rqctx: RequestContext<C>) -> Result<Response<Body>, HttpError> {
     let inst = rqctx.context().instance;
@@ -169,6 +213,7 @@ pub fn api() -> ApiDescription<C> {
     api.register(h_stepping).unwrap();
     api.register(h_big).unwrap();
     api.register(h_panicking).unwrap();
+    api.register(h_stream).unwrap();
     api.register(h_whoami).unwrap();
     api
 }
@@ -538,16 +583,31 @@ pub struct Out {
     pub inter: BTreeSet<String>,
     pub maxc: u64,
     pub hangs: Vec<(u64, u64, String)>,
+    /// histories of cases that ended inconclusive on a watchdog (diagnosis)
+    pub notes: Vec<Value>,
 }
 
 impl Out {
     pub fn new(rep: Report) -> Out {
-        Out { rep, inter: BTreeSet::new(), maxc: 0, hangs: vec![] }
+        Out { rep, inter: BTreeSet::new(), maxc: 0, hangs: vec![], notes: vec![] }
     }
     pub fn merge(&mut self, o: Out) {
         self.rep.merge(o.rep);
         self.inter.extend(o.inter);
         self.maxc = self.maxc.max(o.maxc);
         self.hangs.extend(o.hangs);
+        for n in o.notes {
+            self.note(n);
+        }
+    }
+    pub fn note(&mut self, v: Value) {
+        if self.notes.len() < 6 {
+            self.notes.push(v);
+        }
+    }
+    pub fn flush_notes(&mut self) {
+        if !self.notes.is_empty() {
+            self.rep.extra.insert("watchdog_witnesses".into(), json!(self.notes));
+        }
     }
 }
